@@ -12,11 +12,20 @@ def texts(min_size=0, max_size=10, esc=False, nonascii=True, alphabet=None):
     return st.lists(st.sampled_from(alpha), min_size=min_size, max_size=max_size).map(''.join)
 
 
+def weighted(*pairs):
+    """weighted choice between strategies: weighted((5, a), (1, b)).  (st.one_of silently merges
+    repeated identical strategy objects, so weights cannot be expressed by repetition there.)"""
+    pool = []
+    for w, s in pairs:
+        pool += [s] * w
+    return st.sampled_from(pool).flatmap(lambda x: x)
+
+
 def idx(far=True, span=14):
-    opts = [st.integers(0, 11)] * 5 + [st.integers(-11, -1)] * 2 + [st.none()] * 2 + [st.integers(-span, span)]
+    opts = [(10, st.integers(0, 11)), (4, st.integers(-11, -1)), (3, st.none()), (2, st.integers(-span, span))]
     if far:
-        opts.append(st.sampled_from([10 ** 6, -10 ** 6, 100, -100, 12, 13, -12, -13]))
-    return st.one_of(*opts)
+        opts.append((1, st.sampled_from([10 ** 6, -10 ** 6, 100, -100, 12, 13, -12, -13])))
+    return weighted(*opts)
 
 
 # ---- settings pool: built to conflict (several members per effect group incl. the clear code)
@@ -103,29 +112,28 @@ class Cfg:
 def spec(cfg):
     if cfg.odd > 0:
         w = max(1, int(round(1 / cfg.odd)) - 1)
-        return st.one_of(*([wf_spec()] * w + [odd_spec(cfg.reset, cfg.unknown, cfg.multi, cfg.invalid, cfg.incomplete)]))
+        return weighted((w, wf_spec()), (1, odd_spec(cfg.reset, cfg.unknown, cfg.multi, cfg.invalid, cfg.incomplete)))
     return wf_spec()
 
 
 def specs(cfg, min_size=1, max_size=3):
     base = st.lists(spec(cfg), min_size=min_size, max_size=max_size)
     nested = st.lists(spec(cfg), min_size=1, max_size=2).map(lambda l: [{'k': 'list', 'v': l}])
-    return st.one_of(base, base, base, nested)
+    return weighted((5, base), (1, nested))
 
 
 def ansi_text(cfg):
     """An ANSI-coded constructor argument built from tokens (plain bodies only)."""
     body = st.sampled_from(['', '0', '1', '31', '1;31', '22', '39', '4', '24', '38;5;200', '1;38;5;200', '48;2;1;2;3',
                             '0;1', '31;0', '2', '34', '41', '49', '56', '21', '58;5;9', '59', '3;23', '1;2;22;1'])
-    tok = st.one_of(texts(0, 3, esc=False, nonascii=cfg.nonascii), body.map(lambda b: '\x1b[' + b + 'm'),
-                    body.map(lambda b: '\x1b[' + b + 'm'))
+    tok = weighted((1, texts(0, 3, esc=False, nonascii=cfg.nonascii)), (2, body.map(lambda b: '\x1b[' + b + 'm')))
     return st.lists(tok, max_size=7).map(''.join)
 
 
 def text_len(cfg):
     lo, hi = cfg.min_text, cfg.max_text
     mid = st.integers(max(lo, min(3, hi)), hi)
-    return st.one_of(mid, mid, mid, st.integers(lo, hi))
+    return weighted((3, mid), (1, st.integers(lo, hi)))
 
 
 def ctor(cfg):
@@ -240,7 +248,7 @@ def progs(cfg, depth=1):
     rich = copy.copy(cfg)
     rich.rich = True
     rich.min_text = max(cfg.min_text, 3)
-    return st.one_of(prog(cfg, depth), prog(rich, depth), prog(rich, depth))
+    return weighted((1, prog(cfg, depth)), (2, prog(rich, depth)))
 
 
 def prog(cfg, depth=1, max_ops=None):
